@@ -130,4 +130,58 @@ theorem nodup_filter (z : Zone) (p : Key × RSet → Bool) (h : (z.map (·.1)).N
     ((z.filter p).map (·.1)).Nodup :=
   List.Nodup.sublist (List.Sublist.map _ List.filter_sublist) h
 
+theorem get_mem {z : Zone} {k : Key} {v : RSet} (h : z.get k = some v) : (k, v) ∈ z := by
+  induction z with
+  | nil => simp at h
+  | cons e z ih =>
+    obtain ⟨k1, v1⟩ := e
+    rw [get_cons] at h
+    by_cases hk : k1 = k
+    · rw [if_pos hk] at h; cases h; subst hk; exact List.mem_cons_self
+    · rw [if_neg hk] at h; exact List.mem_cons_of_mem _ (ih h)
+
+theorem mem_erase {z : Zone} {k : Key} {e : Key × RSet} (h : e ∈ z.erase k) : e ∈ z ∧ e.1 ≠ k := by
+  unfold erase at h
+  simpa using List.mem_filter.mp h
+
+theorem mem_insertSorted {k : Key} {v : RSet} {z : Zone} {e : Key × RSet}
+    (h : e ∈ insertSorted k v z) : e = (k, v) ∨ e ∈ z := by
+  induction z with
+  | nil => simpa [insertSorted] using h
+  | cons a z ih =>
+    obtain ⟨k1, v1⟩ := a
+    unfold insertSorted at h
+    split at h
+    · rcases List.mem_cons.mp h with h | h
+      · exact Or.inl h
+      · exact Or.inr h
+    · rcases List.mem_cons.mp h with h | h
+      · exact Or.inr (h ▸ List.mem_cons_self)
+      · rcases ih h with h | h
+        · exact Or.inl h
+        · exact Or.inr (List.mem_cons_of_mem _ h)
+
+theorem mem_set {z : Zone} {k : Key} {v : RSet} {e : Key × RSet} (h : e ∈ z.set k v) :
+    e = (k, v) ∨ (e ∈ z ∧ e.1 ≠ k) := by
+  unfold set at h
+  rcases mem_insertSorted h with h | h
+  · exact Or.inl h
+  · exact Or.inr (mem_erase h)
+
+/-- with one entry per key, membership is `get` -/
+theorem get_of_mem {z : Zone} (hn : (z.map (·.1)).Nodup) {k : Key} {v : RSet} (h : (k, v) ∈ z) :
+    get z k = some v := by
+  induction z with
+  | nil => cases h
+  | cons a z ih =>
+    obtain ⟨k1, v1⟩ := a
+    rw [get_cons]
+    simp only [List.map_cons, List.nodup_cons] at hn
+    rcases List.mem_cons.mp h with h | h
+    · cases h; simp
+    · have hne : k1 ≠ k := by
+        intro heq; apply hn.1; rw [heq]
+        exact List.mem_map.mpr ⟨(k, v), h, rfl⟩
+      rw [if_neg hne]; exact ih hn.2 h
+
 end HickoryVerif.Upd.Zone
